@@ -75,6 +75,21 @@ Theorem C12_home : forall lay home l s (o : oracle errno), coll_path home = true
 Proof. exact c12_home. Qed.
 Print Assumptions C12_home.
 
+(* A directory fsync counts for the directory it REACHES: `FsyncD d` stands for the fsync of the directory linked at d
+   at the time of the call.  When a visible entry q is unsynced, fsyncs of any directories other than the one q is
+   linked in (a descriptor kept from before the collection was replaced or removed and re-created names a path below
+   a temp directory, or none) leave the trace non-durable.  Example: replace a collection, then PUT with the fsync
+   on the old directory. *)
+Theorem C12_dir_fsync_by_identity : forall ds t q, is_data q = true -> In (DE q) (m_dirty (mon_run t)) ->
+  (forall d, In d ds -> parent q <> d) -> ~ durable (t ++ map FsyncD ds).
+Proof. exact c12_dir_fsyncs_elsewhere. Qed.
+Print Assumptions C12_dir_fsync_by_identity.
+
+Theorem C12_replaced_directory_example :
+  durableb (ex_replace_then_put (ex_u ++ [Tmp 0; Other 0])) = false /\ durableb (ex_replace_then_put ex_cal) = true.
+Proof. exact bad_fsync_of_replaced_directory. Qed.
+Print Assumptions C12_replaced_directory_example.
+
 (* The hypotheses are satisfiable and the conclusion is not vacuous: a concrete store, a successful PUT
    with a 27-event trace; and the predicate rejects the classic mistakes. *)
 Theorem C12_nonvacuous :
